@@ -328,7 +328,7 @@ func init() {
 		}
 		n := 2000
 		if thorough() {
-			n = 12000
+			n = 100000
 		}
 		var jobs []func()
 		for i := 0; i < n; i++ {
